@@ -136,12 +136,17 @@ def run(ctx):
                 engines[bs] = stubs.make_engine(d, batch_size=bs)[0]
             return engines[bs]
         alone = engine(1)
-        m = 25 if ctx.quick() else 300
+        m = 250 if ctx.quick() else 1200
         for _ in range(m):
             nlines = rng.randrange(0, 8)
             ws = [rng.choice([rng.randrange(1, 200), rng.randrange(200, 900)]) for _ in range(nlines)]
-            if rng.random() < 0.3 and nlines:
+            r = rng.random()
+            if r < 0.2 and nlines:
                 ws = [ws[0]] * nlines
+            elif r < 0.6 and nlines:
+                # similar widths: consecutive batches of identical tensor shape holding lines of slightly different width
+                w0 = rng.randrange(40, 600)
+                ws = [max(1, w0 - rng.randrange(0, 31)) for _ in range(nlines)]
             lines = [stubs.random_line(rng, w) for w in ws]
             bs = rng.randrange(1, 17)
             mode = rng.choice(['dense', 'sparse', 'tight', 'nologits'])
